@@ -1,7 +1,57 @@
 import Rare.Model.Expr.Build
+import Rare.Model.C19Float
+/-! `funcsMath.go`: `{! formula}` (kfMath) on top of the stdmath model (`Rare/Model/C19.lean`),
+    float64 instance.  Values that depend on libm functions make the stage answer `unmodelled`. -/
 namespace Rare.Expr.Funcs.Math
 open Rare.Expr
 
-def table : Table := []
+/-- `keyBuilderContextWrapper`: a look-up parsed with `strconv.ParseFloat`; a failure counts as
+    an error and reads as 0. -/
+def conv (s : Bytes) : C19.F.FV × Nat :=
+  match C19.F.parseFloatText s with
+  | none => (some 0.0, 1)
+  | some v => (v, 0)
+
+/-- `expr.Eval(mathCtx)`: value and number of look-ups that did not parse. -/
+def evalC : C19.Expr C19.F.FV → Comp (C19.F.FV × Nat)
+  | .val v => pure (v, 0)
+  | .named n => do let s ← Comp.key n; pure (conv s)
+  | .idx i => do let s ← Comp.match_ i; pure (conv s)
+  | .un m e => do
+    let (v, k) ← evalC e
+    pure (C19.F.arith.un m v, k)
+  | .bin op l r => do
+    let (a, k1) ← evalC l
+    let (b, k2) ← evalC r
+    pure (C19.F.arith.bin op a b, k1 + k2)
+
+/-- Collapse all arguments to a single formula text; `none` = some argument is not static. -/
+def collapse : List Stage → Bytes → Except String (Option Bytes)
+  | [], acc => .ok (some acc)
+  | a :: rest, acc =>
+    match a.probe with
+    | .error m => .error m
+    | .ok (v, true) => collapse rest (acc ++ v)
+    | .ok (_, false) => .ok none
+
+def kfMath : Builder := fun args =>
+  match collapse args [] with
+  | .error m => .error m
+  | .ok none => errConst
+  | .ok (some src) =>
+    match C19.compile C19.F.arith src with
+    | .error (.unmodelled w) => .ok ⟨some (.panic ("unmodelled:!" ++ w)), none⟩
+    | .error (.panic m) => .error m
+    | .error .fuel => .error "fuel"
+    | .error _ => errParsing
+    | .ok (_, e) =>
+      ok (do
+        let (v, errs) ← evalC e
+        if errs > 0 then pure ErrorNum
+        else match v with
+          | none => Comp.panic "unmodelled:!inexact"
+          | some x => pure (C19.F.formatF x))
+
+def table : Table := [("!", kfMath)]
 
 end Rare.Expr.Funcs.Math
